@@ -9,6 +9,7 @@ import (
 	"runtime/debug"
 	"strings"
 	"sync"
+	"sync/atomic"
 	"time"
 
 	"github.com/mark3labs/flyt"
@@ -55,6 +56,8 @@ type EScen struct {
 	// concurrent batch nodes run gated: every exec call parks; at each quiescent point the
 	// parked call that comes first in Release (16*item index + attempt) is let go
 	Release []int `json:"release,omitempty"`
+	// wait family: every exec callback sleeps this long before it returns (microseconds)
+	ExecDelayUs int `json:"exec_delay_us,omitempty"`
 }
 
 type EOutcome struct {
@@ -67,6 +70,10 @@ type ERun struct {
 	Outcome EOutcome `json:"outcome"`
 	Panic   string   `json:"panic,omitempty"`
 	Timeout bool     `json:"timeout,omitempty"`
+	// clock readings (ns since the scenario began): when the harness cancelled the context
+	// because a wait was scripted to be interrupted (0: it did not), when flyt.Run returned
+	CancelAt int64 `json:"cancel_at,omitempty"`
+	RetAt    int64 `json:"ret_at,omitempty"`
 }
 
 type EObs struct {
@@ -202,6 +209,55 @@ type scriptRT struct {
 	trace   []Event
 	w       *world
 	cancel  func()
+	// wait family
+	began     time.Time
+	delay     time.Duration
+	cancelAt  int64
+	waitCount map[[2]int]int // (node, item) -> failed exec attempts so far = waits scripted so far
+}
+
+func (s *scriptRT) now() int64 {
+	if s.began.IsZero() {
+		return 0
+	}
+	return int64(time.Since(s.began))
+}
+
+// afterFailedAttempt: the engine is about to wait before the next attempt of (node, item) - if the
+// scenario says that this wait is interrupted, cancel the context a little later, from outside
+// every callback.  Until the cancellation has happened no gated call is released.
+func (s *scriptRT) afterFailedAttempt(node, item int) {
+	s.mu.Lock()
+	if s.waitCount == nil {
+		s.waitCount = map[[2]int]int{}
+	}
+	k := s.waitCount[[2]int{node, item}]
+	s.waitCount[[2]int{node, item}] = k + 1
+	interrupt := false
+	for _, e := range s.entries {
+		if e.Ph == "wait" && e.N == node && (e.Item == 0 || e.Item == item) {
+			r := e.Dflt
+			if k < len(e.Rs) {
+				r = e.Rs[k]
+			}
+			interrupt = r.Cancel
+			break
+		}
+	}
+	s.mu.Unlock()
+	if !interrupt {
+		return
+	}
+	atomic.AddInt32(&gateHold, 1)
+	time.AfterFunc(30*time.Millisecond, func() {
+		s.mu.Lock()
+		if s.cancelAt == 0 {
+			s.cancelAt = s.now()
+		}
+		s.mu.Unlock()
+		s.cancel()
+		atomic.AddInt32(&gateHold, -1)
+	})
 }
 
 func keyMatches(e SEntry, n int, ph string, item int) bool {
@@ -218,6 +274,13 @@ func globalDefault(ph string) Resp {
 // respond mirrors Script.oracle_of: first matching entry, indexed by the number of earlier
 // calls that matched that entry. The event is appended when the callback returns.
 func (s *scriptRT) respond(c Call, ph string, item int) Resp {
+	r, _ := s.respondAt(c, ph, item, 0)
+	return r
+}
+
+// respondAt also notes the instant t0 at which the callback was entered and returns the index of
+// the event in the trace
+func (s *scriptRT) respondAt(c Call, ph string, item int, t0 int64) (Resp, int) {
 	s.mu.Lock()
 	defer s.mu.Unlock()
 	r := globalDefault(ph)
@@ -241,8 +304,16 @@ func (s *scriptRT) respond(c Call, ph string, item int) Resp {
 	if r.Cancel && s.cancel != nil {
 		s.cancel()
 	}
-	s.trace = append(s.trace, Event{Call: c, Resp: r})
-	return r
+	s.trace = append(s.trace, Event{Call: c, Resp: r, T0: t0})
+	return r, len(s.trace) - 1
+}
+
+func (s *scriptRT) setEnd(idx int, t1 int64) {
+	s.mu.Lock()
+	if idx < len(s.trace) {
+		s.trace[idx].T1 = t1
+	}
+	s.mu.Unlock()
 }
 
 func (s *scriptRT) takeTrace() []Event {
@@ -303,6 +374,7 @@ func (h *hnode) prep(shared *flyt.SharedStore) Resp {
 	return r
 }
 func (h *hnode) exec(arg any) Resp {
+	t0 := h.rt.now()
 	a := h.rt.w.encode(arg)
 	if h.gated && h.rt.gate != nil {
 		key := itemKey(a)
@@ -316,7 +388,15 @@ func (h *hnode) exec(arg any) Resp {
 		h.mu.Unlock()
 		h.rt.gate.park(h.id, idx, att)
 	}
-	return h.rt.respond(Call{K: "exec", N: h.id, Arg: &a}, "exec", itemKey(a))
+	r, idx := h.rt.respondAt(Call{K: "exec", N: h.id, Arg: &a}, "exec", itemKey(a), t0)
+	if h.rt.delay > 0 {
+		time.Sleep(h.rt.delay)
+	}
+	if r.K == "err" {
+		h.rt.afterFailedAttempt(h.id, itemKey(a))
+	}
+	h.rt.setEnd(idx, h.rt.now())
+	return r
 }
 func (h *hnode) fallback(arg any, err error) Resp {
 	a := h.rt.w.encode(arg)
@@ -641,7 +721,8 @@ func runEngine(sc EScen) (obs EObs) {
 		ctx = deadlineCtx{base}
 	}
 	w.ctx = ctx
-	rt := &scriptRT{entries: sc.Script, counts: make([]int, len(sc.Script)), w: w, cancel: cancel}
+	rt := &scriptRT{entries: sc.Script, counts: make([]int, len(sc.Script)), w: w, cancel: cancel,
+		began: time.Now(), delay: time.Duration(sc.ExecDelayUs) * time.Microsecond}
 
 	nodes := map[int]flyt.Node{}
 	flows := map[int]*flyt.Flow{}
@@ -723,6 +804,7 @@ func runEngine(sc EScen) (obs EObs) {
 				}
 			}()
 			a, err := flyt.Run(ctx, nodes[sc.Root], w.store)
+			r.RetAt = rt.now()
 			r.Outcome = EOutcome{Action: actID(a), Err: classify(err, ctx)}
 		}()
 		select {
@@ -731,6 +813,9 @@ func runEngine(sc EScen) (obs EObs) {
 			r.Timeout = true
 		}
 		r.Trace = rt.takeTrace()
+		rt.mu.Lock()
+		r.CancelAt = rt.cancelAt
+		rt.mu.Unlock()
 		obs.Runs = append(obs.Runs, r)
 		if r.Timeout {
 			break
